@@ -327,9 +327,11 @@ class Analysis(object):
             self._logc = np.array(rows)
         return self._logc
 
-    def log_bound(self, n, radii, node=None):
+    def log_bound(self, n, radii, node=None, kmin=0):
         """log of  n! * (sum_{k<K} |c_k| r^(k-n) + Cauchy tail)  for each r in radii and each node
         (array nodes x radii; +inf where no certified disc of radius >= 2r exists).
+        With kmin > 0 only the terms k >= kmin are summed (the part of the series a rule of
+        order kmin - n does not reproduce); the Cauchy tail is always included.
         The tail uses |c_k| <= M(rho)/rho^k on the smallest certified rho >= 2r."""
         radii = np.asarray(radii, dtype=float)
         K = self.K
@@ -338,6 +340,8 @@ class Analysis(object):
         logr = np.log(radii)
         # nodes x radii x K
         terms = logc[:, None, :] + (k[None, None, :] - n) * logr[None, :, None]
+        if kmin > 0:                      # only the terms k >= kmin (truncation sums)
+            terms = np.where(k[None, None, :] >= kmin, terms, -np.inf)
         mx = np.max(terms, axis=2)
         mx_safe = np.where(np.isfinite(mx), mx, 0.0)
         with np.errstate(divide='ignore', invalid='ignore'):
